@@ -1,5 +1,78 @@
-(* C15 — placeholder until proofs/PolyDomainFacts.v lands. *)
-From Coq Require Import List. Import ListNotations.
-Require Import Py Sem Term Poly Tactics PolyDomain.
-Example C15_model_runs : poly_order (Some [2%nat]) = Some [2%nat].
-Proof. reflexivity. Qed.
+(* C15 — composition keeps what the result can express (translated algebra, gen/AlgebraGen.v):
+   every guarantee of an operand whose variables all belong to the interface of the composite
+   (in particular those over variables kept with vars_to_keep) follows from the composite; and
+   with no connection between the operands, composition is exact.  For any constraint domain
+   meeting DomainSpec and the optional KeepSpec (proofs/AlgebraSpec.v: Term.__eq__ is reflexive
+   and only identifies terms over the same variables; relaxation removes the eliminated
+   variables and is an equivalence in context when there is nothing to eliminate).
+   Statements only; proofs in proofs/AlgebraSound.v. *)
+From Coq Require Import List String Bool.
+Import ListNotations.
+Require Import Py ListsGen AlgebraGen AlgebraSpec AlgebraSound.
+
+Theorem C15_compose : forall (D : Domain) (B : Type) (dt : term -> B -> Prop) (wf : term -> Prop) (pv : var -> Prop),
+  DomainSpec B dt wf pv -> KeepSpec B dt wf pv ->
+  forall c1 c2 keep sp od c st, wfc wf c1 -> wfc wf c2 ->
+  iface_ok pv c1 -> iface_ok pv c2 -> NoDup (opt_list keep) ->
+  IoContract_compose_tactics c1 c2 keep sp od = inl (c, st) ->
+  forall t, In t (c_g c1) \/ In t (c_g c2) ->
+  (forall v, In v (term_vars t) -> In v (c_inputvars c) \/ In v (c_outputvars c)) ->
+  forall b, den B dt (c_a c) b -> den B dt (c_g c) b -> dt t b.
+Proof. exact @compose_keeps_guarantees. Qed.
+Print Assumptions C15_compose.
+
+(* second sentence: with no connection, composition is exact (exact_obligation, AlgebraSpec.v) *)
+Theorem C15_exact : forall (D : Domain) (B : Type) (dt : term -> B -> Prop) (wf : term -> Prop) (pv : var -> Prop),
+  DomainSpec B dt wf pv -> KeepSpec B dt wf pv ->
+  forall c1 c2 keep sp od c st, wfc wf c1 -> wfc wf c2 ->
+  iface_ok pv c1 -> iface_ok pv c2 -> NoDup (opt_list keep) ->
+  IoContract_compose_tactics c1 c2 keep sp od = inl (c, st) ->
+  list_intersection (c_outputvars c1) (c_inputvars c2) = [] /\
+  list_intersection (c_inputvars c1) (c_outputvars c2) = [] ->
+  exact_obligation B dt c1 c2 c.
+Proof. exact @compose_exact. Qed.
+Print Assumptions C15_exact.
+
+(* merging keeps every guarantee (needs DomainSpec only) *)
+Theorem C15_merge : forall (D : Domain) (B : Type) (dt : term -> B -> Prop) (wf : term -> Prop) (pv : var -> Prop),
+  DomainSpec B dt wf pv ->
+  forall c1 c2 m, wfc wf c1 -> wfc wf c2 ->
+  IoContract_merge c1 c2 = inl m ->
+  forall t, In t (c_g c1) \/ In t (c_g c2) ->
+  forall b, den B dt (c_a m) b -> den B dt (c_g m) b -> dt t b.
+Proof. exact @merge_keeps_guarantees. Qed.
+Print Assumptions C15_merge.
+
+(* non-vacuity: the toy domain of AlgebraSound.v meets both specs; keeping the connection
+   variable y of the cascade c1 ; c2 keeps c1's guarantee y = 1, and the composition of the
+   unconnected c1 and c3 is exact *)
+Example C15_toy_specs :
+  @DomainSpec Toy.ToyDomain Toy.beh Toy.atom_dt Toy.atom_wf Toy.atom_pv /\
+  @KeepSpec Toy.ToyDomain Toy.beh Toy.atom_dt Toy.atom_wf Toy.atom_pv.
+Proof. exact (conj Toy.ToySpec Toy.ToyKeep). Qed.
+
+Example C15_nonvacuous_keep :
+  (exists st, @IoContract_compose_tactics Toy.ToyDomain Toy.c1 Toy.c2 (Some ["y"%string]) true None = inl (Toy.c12y, st)) /\
+  forall b, @den Toy.ToyDomain Toy.beh Toy.atom_dt (c_a Toy.c12y) b ->
+            @den Toy.ToyDomain Toy.beh Toy.atom_dt (c_g Toy.c12y) b ->
+            Toy.atom_dt (Toy.Atom "y"%string 1) b.
+Proof.
+  split; [exact Toy.compose_keep_runs|].
+  destruct Toy.compose_keep_runs as (st & Hst).
+  refine (C15_compose Toy.ToyDomain _ _ _ _ Toy.ToySpec Toy.ToyKeep Toy.c1 Toy.c2 (Some ["y"%string]) true None
+            Toy.c12y st (Toy.atom_wfc _) (Toy.atom_wfc _) Toy.iface_c1 Toy.iface_c2 (Toy.NoDup1 _) Hst
+            (Toy.Atom "y"%string 1) _ _).
+  - left. left. reflexivity.
+  - intros v [<-|[]]. right. right. left. reflexivity.
+Qed.
+
+Example C15_nonvacuous_exact :
+  (exists st, @IoContract_compose_tactics Toy.ToyDomain Toy.c1 Toy.c3 None true None = inl (Toy.c13, st)) /\
+  @exact_obligation Toy.ToyDomain Toy.beh Toy.atom_dt Toy.c1 Toy.c3 Toy.c13.
+Proof.
+  split; [exact Toy.compose_unconnected_runs|].
+  destruct Toy.compose_unconnected_runs as (st & Hst).
+  refine (C15_exact Toy.ToyDomain _ _ _ _ Toy.ToySpec Toy.ToyKeep Toy.c1 Toy.c3 None true None
+            Toy.c13 st (Toy.atom_wfc _) (Toy.atom_wfc _) Toy.iface_c1 Toy.iface_c3 (NoDup_nil _) Hst _).
+  split; reflexivity.
+Qed.
